@@ -77,6 +77,54 @@ class Injector(object):
         mon.free_tool_id(TOOL)
 
 
+class Watchdog(object):
+    """Decides 'the main thread makes no progress': its innermost frame and instruction stay the same for `limit` seconds (sampled
+    every 0.25 s). The only thread of the case that does anything is the main thread, so a thread that stays on one instruction for
+    that long is blocked for good (a lock it already holds, typically). The position is recorded and the main thread interrupted
+    (KeyboardInterrupt out of the blocking acquire), so that the case ends and reports it."""
+
+    def __init__(self, limit=8.0):
+        self.limit = limit
+        self.main = threading.get_ident()
+        self.stuck = None
+        self.done = threading.Event()
+        # (a real signal: only that wakes a thread blocked in a lock acquire)
+        self._interrupt = lambda: signal.pthread_kill(self.main, signal.SIGINT)
+        self.t = threading.Thread(target=self._run, daemon=True)
+
+    def _where(self):
+        f = sys._current_frames().get(self.main)
+        if f is None:
+            return None
+        g = f
+        while g is not None and "/eliot/" not in g.f_code.co_filename:  # (the nearest frame of the library, for the report)
+            g = g.f_back
+        g = g or f
+        return (id(f), f.f_lasti, "%s:%d in %s" % (g.f_code.co_filename.rsplit("/", 1)[-1], g.f_lineno, g.f_code.co_name))
+
+    def _run(self):
+        import time
+        last, since = None, time.monotonic()
+        while not self.done.wait(0.25):
+            w = self._where()
+            if w is None:
+                return
+            if last is None or w[:2] != last[:2]:
+                last, since = w, time.monotonic()
+            elif time.monotonic() - since > self.limit:
+                self.stuck = w[2]
+                self._interrupt()
+                return
+
+    def __enter__(self):
+        signal.signal(signal.SIGINT, signal.default_int_handler)
+        self.t.start()
+        return self
+
+    def __exit__(self, *a):
+        self.done.set()
+
+
 def run_once(program, k, handler_kind):
     """program: list of ops (see _exec); k: index of the switch point at which the signal is raised (0 = never);
     handler_kind: 'msg' | 'action' | 'serialize' | 'typed'. Returns what a recording destination saw, which calls returned, where the
@@ -161,13 +209,17 @@ def run_once(program, k, handler_kind):
                 returned.append(-nid)
 
     inj.armed = True
+    wd = Watchdog()
     try:
-        _exec(program)
+        with wd:
+            _exec(program)
     except BaseException as e:
         errors.append("the program's logging call raised %r" % (e,))
     finally:
         inj.armed = False
         inj.close()
+    if wd.stuck:
+        errors.insert(0, "a logging call never returned: the only running thread stayed at %s for %.0f s (blocked on something it holds itself)" % (wd.stuck, wd.limit))
     return {"tape": tape, "returned": returned, "reserved": reserved, "errors": errors, "points": inj.count, "fired": inj.fired,
             "handler_runs": state["handler_runs"], "handler_context": state["handler_context"]}
 
@@ -263,3 +315,78 @@ def judge(data, problems):
 
 def _brief(m):
     return {k: m.get(k) for k in ("message_type", "action_type", "action_status", "nid") if k in m}
+
+
+def run_handover(nprebuf, nafter, k, with_globals=False):
+    """Start-up hand-over with a logging signal handler: `nprebuf` messages are logged before any destination exists, then the first
+    add_destinations() call is made and `nafter` more messages are logged; the handler (which logs one message) is delivered at
+    switch point k of all that (0 = never). Returns the destination's tape and what returned."""
+    from eliot import _action, _message, _output
+    from eliot import add_destinations, add_global_fields, log_message
+
+    if threading.current_thread() is not threading.main_thread():
+        return {"skip": "not the main thread of its process"}
+    tape = []
+    returned = []
+    errors = []
+    state = {"handler_runs": 0}
+
+    def handler(signum, frame):
+        inj.in_handler = True
+        try:
+            state["handler_runs"] += 1
+            try:
+                log_message(message_type="sig:note", n=1000)
+                returned.append(1000)
+            except BaseException as e:
+                errors.append("the signal handler's logging call raised %r" % (e,))
+        finally:
+            inj.in_handler = False
+
+    signal.signal(signal.SIGUSR1, handler)
+    inj = Injector([_action, _output, _message], k, lambda: signal.raise_signal(signal.SIGUSR1))
+    inj.armed = True
+    wd = Watchdog()
+    try:
+        with wd:
+            if with_globals:
+                add_global_fields(g=1)
+            for i in range(nprebuf):
+                log_message(message_type="pre", n=i)
+                returned.append(i)
+            add_destinations(lambda m: tape.append(dict(m)))
+            returned.append("add")
+            for i in range(nafter):
+                log_message(message_type="post", n=100 + i)
+                returned.append(100 + i)
+    except BaseException as e:
+        errors.append("the program's call raised %r" % (e,))
+    finally:
+        inj.armed = False
+        inj.close()
+    if wd.stuck:
+        errors.insert(0, "a logging call made by the signal handler never returned: the only running thread stayed at %s for %.0f s (blocked on something it holds itself)" % (wd.stuck, wd.limit))
+    return {"tape": [(m.get("message_type"), m.get("n"), m.get("g")) for m in tape], "returned": returned, "errors": errors, "points": inj.count,
+            "fired": inj.fired, "handler_runs": state["handler_runs"], "stuck": wd.stuck}
+
+
+def judge_handover(data, nprebuf, nafter, with_globals, problems):
+    """Every message whose logging call returned is delivered to the destination of the first add_destinations exactly once; buffered
+    messages keep their order among themselves and precede the ones logged after the call; no call raises. Where the handler's own
+    message comes out relative to the others is not judged (the same thread logging in the middle of the replay is not held back by
+    anything: DESIGN 10.2, F26)."""
+    for e in data["errors"]:
+        problems.append(e)
+    tape = [tuple(x) for x in data["tape"]]
+    ns = [x[1] for x in tape]
+    for r in data["returned"]:
+        if r == "add":
+            continue
+        if ns.count(r) != 1:
+            problems.append("the logging call for message %r returned, but the destination of the first add_destinations call received it %d times (tape %s)" % (r, ns.count(r), ns))
+    main = [n for n in ns if n != 1000]
+    want = [r for r in data["returned"] if r not in ("add", 1000)]
+    if main != want and not problems:
+        problems.append("messages arrive as %s, logged as %s" % (main, want))
+    if with_globals and any(x[2] != 1 for x in tape if x[1] != 1000 or True):
+        problems.append("a delivered message lacks the global field set before anything was logged: %s" % (tape,))
